@@ -276,15 +276,16 @@ CHECKS['C13'] = dict(
     assumptions=['sequentially consistent interleavings at synchronisation operations (sufficient for data-race-free code; races are C14)', 'the scheduler\'s model of mutex/condition semantics (cross-checked by the free-running pass of C14)', 'happens-before caching is sound for data-race-free programs'],
     budget={'quick': 420, 'thorough': 3000},
 )
-_C14_QUICK = ['reader-shared 2 0 1', 'reader-shared 3 1 1', 'reader-shared 3 2 1',
+_C14_QUICK = ['reader-shared 2 0 1', 'reader-shared 3 1 1', 'reader-shared 3 2 1', 'reader-shared 3 3 1', 'reader-shared 2 4 1', 'reader-shared 2 5 1',
+              'writer 2 3 1 comp=5', 'writer 2 3 1 comp=2', 'writer2t 2 1 0 comp=5',
               'pool-ordered 2 3 1', 'pool-unordered 2 3 1', 'pool2t-unordered 2 1 1', 'pool2t-ordered 2 1 1',
               'writer 2 3 1', 'writer 1 3 1', 'writer2 2 2 1', 'writer2t 2 1 1', 'sorter 2 3 1', 'sorter-destroy 2 2 1']
 _C14_THOROUGH = ['pool-ordered 2 3 2', 'pool-unordered 2 3 2', 'writer 2 3 2', 'writer 2 4 1', 'sorter 2 3 2', 'sorter-destroy 2 3 2', 'reader-shared 4 1 1', 'pool2t-unordered 2 1 2', 'writer2t 2 1 2', 'writer2 2 2 2']
-_C14_FREE = ['writer 2 4 0 free=40', 'writer2t 2 3 0 free=40', 'sorter 2 4 0 free=40', 'pool2t-unordered 2 3 0 free=40', 'reader-shared 4 1 0 free=20']
+_C14_FREE = ['reader-shared 4 3 0 free=20', 'writer2t 2 3 0 comp=5 free=20', 'writer 2 4 0 free=40', 'writer2t 2 3 0 free=40', 'sorter 2 4 0 free=40', 'pool2t-unordered 2 3 0 free=40', 'reader-shared 4 1 0 free=20']
 CHECKS['C14'] = dict(
     level=MC, engine='vsched',
     technique='the C13 schedule explorer with the code under ThreadSanitizer: the scheduler is uninstrumented (its hand-offs are invisible to the race detector) and announces exactly the program\'s own release/acquire edges, so each explored schedule yields TSan\'s happens-before verdict for that synchronisation order; plus a free-running cross-check',
-    text='Pooled writers/sorters (also two of them sharing a pool from two caller threads) and 2-4 threads iterating and querying one open reader (all four iterator kinds, verify_checksums on, compressed and uncompressed) are executed under every schedule with <=1 (thorough <=2) preemptions with the library compiled by clang -fsanitize=thread. A race is a pair of conflicting accesses unordered by the program\'s own synchronisation; whether such a pair exists depends on the synchronisation order, which is what the explorer enumerates. The shared-reader bodies contain no synchronisation, so their verdict is schedule independent.',
+    text='Pooled writers/sorters (also two of them sharing a pool from two caller threads) and 2-4 threads iterating and querying one open reader (all four iterator kinds, verify_checksums on, all six compression types) are executed under every schedule with <=1 (thorough <=2) preemptions with the library compiled by clang -fsanitize=thread. A race is a pair of conflicting accesses unordered by the program\'s own synchronisation; whether such a pair exists depends on the synchronisation order, which is what the explorer enumerates. The shared-reader bodies contain no synchronisation, so their verdict is schedule independent.',
     jobs=_sjobs('tsan', _C14_QUICK) + _sjobs('tsan', _C14_THOROUGH, tiers=['thorough'], prefix='T:') + _sjobs('tsan', _C14_FREE, prefix='free:'),
     states_key='states', transitions_key='transitions', traces_key='executions',
     rule='as C13; data races are counted through __tsan_on_report',
@@ -325,7 +326,7 @@ CHECKS['C19'] = dict(
     bounds={'quick': 'all families on 6 seeds x {verify off,on} x {init, init_fd}; see harness/h_ropen.c for the value sets',
             'thorough': 'same (the families are exhaustive as defined)'},
     nonzero=['cases', 'returned_null', 'returned_reader', 'stopped_on_assertion'],
-    assumptions=['arbitrary unstructured content is outside the bound; the families target every field the open path reads'],
+    assumptions=['unstructured content is covered only by a fixed pseudo-random family (3 x 3000 files, generator with fixed seeds); the structured families target every field the open path reads'],
     budget={'quick': 300, 'thorough': 1200},
 )
 
@@ -379,7 +380,7 @@ CHECKS['C18'] = dict(
 CHECKS['C11'] = dict(
     level=MC, engine='seqx',
     technique='bounded-exhaustive enumeration of well-formed files produced by an independent encoder (every block partition x restart set x sharing amount x index separator choice x format version x compression x foreign prefix over small key sets), read back through the real reader: iteration, get / get_prefix / get_range, seek from exhausted and fresh iterators; >4 GiB block images for 64-bit restart arrays',
-    text='The writer emits one encoding per content; the format allows many. For every strictly increasing key sequence of length <=4 (thorough 5) from K9 the independent encoder produces every partition into blocks, every legal restart set, sharing amounts {0, lcp-1, lcp} per non-restart entry (also in the index block), four separator choices per block between "last key" and "just below the next first key", v1 and v2, six compression types, foreign prefix 0/13. The reader (verify_checksums off and on) must return exactly the encoded entries for full iteration, for get/get_prefix/get_range over the 31-string universe, and for seek+next from an exhausted iterator. Blocks larger than 4 GiB with 64-bit restart offsets are built in a lazily zeroed mapping and handed to block_init/block_iter directly.',
+    text='The writer emits one encoding per content; the format allows many. For every strictly increasing key sequence of length <=4 (thorough 5) from K9 the independent encoder produces every partition into blocks, every legal restart set, sharing amounts {0, lcp-1, lcp} per non-restart entry (also in the index block) and, over a second key pool with common prefixes of 2-5 bytes, {0, 1, lcp-1, lcp}, four separator choices per block between "last key" and "just below the next first key", v1 and v2, six compression types, foreign prefix 0/13. The reader (verify_checksums off and on) must return exactly the encoded entries for full iteration, for get/get_prefix/get_range over the 31-string universe, and for seek+next from an exhausted iterator. Blocks larger than 4 GiB with 64-bit restart offsets are built in a lazily zeroed mapping and handed to block_init/block_iter directly.',
     jobs=[dict(name='encoded-files', spec=H('h_encode.c', 'asan'), args=['enc']),
           dict(name='restart64', spec=H('h_encode.c', 'fast'), args=['restart64'], shards=1),
           dict(name='builder64', spec=H('h_encode.c', 'fast'), args=['bb64'], shards=1, tiers=['thorough'])],
@@ -387,7 +388,7 @@ CHECKS['C11'] = dict(
     rule='one case = one encoded file; transitions = lookups/seeks compared; signature = (version, compression, #blocks, #restarts, prefix)',
     bounds={'quick': 'key subsets of K9 up to size 4; full product partition x restarts x sharing at v2/none; 4^blocks separator choices per partition; version x 6 compressions x prefix x 2 restart layouts per partition; 3 restart layouts of a 4.0 GiB block',
             'thorough': 'subsets up to size 5; block_builder round trip of a 6 GiB block (four 1.5 GiB values, restart interval 1 and 2)'},
-    nonzero=['cases', 'transitions', 'restart64_blocks'],
+    nonzero=['cases', 'transitions', 'restart64_blocks', 'partial_sharing_files'],
     assumptions=['the encoder is cross-checked by its own decoder on every file', 'values are 1-3 bytes: value handling is covered by C01'],
     budget={'quick': 300, 'thorough': 2400},
 )
